@@ -113,7 +113,8 @@ def main(pid):
                                     "resource_eq": o["req"][i][j], "expected": exp})
             rtbad = [dict(r, text=o["rows"][i]["text"]) for i, r in enumerate(o["rt"]) if r["checked"] and not (r["one"] and r["equal"] and r["fixed"])]
             vd.violation(cl, {"group": o["label"], "pairs": bad[:6], "roundtrip": rtbad[:3]},
-                         {"clause": cl, "group_kind": "examples" if o["label"].startswith("examples") else "string"})
+                         {"clause": cl, "group_kind": "examples" if o["label"].startswith("examples") else "string"},
+                         judge=vlib.J("Trace_Equality", "Trace_Equality.cfg", o), rerun=vlib.R("drv_extract", "run_equality", groups[ix]))
     ev.sample({"group": obs[0]["label"], "members": [r["text"] for r in obs[0]["rows"]][:6]})
     ev.cov["traces_validated_against_impl"] = len(obs)
     ev.cov["evaluations"] = sum(len(o["rows"]) ** 2 for o in obs)
